@@ -422,4 +422,58 @@ theorem c11_written_switch_number_in_table {cfg : RichCfg} {secs : List RSection
     rw [← hs, hl]
     exact hb p (List.mem_of_find?_eq_some hf)
 
+/-- in a list whose keys are pairwise different, an element is determined by its key -/
+theorem eq_of_key_nodup {α} (key : α → Option Nat) :
+    ∀ (xs : List α), (xs.filterMap key).Nodup → ∀ x ∈ xs, ∀ y ∈ xs, ∀ i, key x = some i → key y = some i → x = y := by
+  intro xs
+  induction xs with
+  | nil => intro _ x hx; simp at hx
+  | cons a as ih =>
+    intro hnd x hx y hy i hxi hyi
+    cases hka : key a with
+    | none =>
+      have hnd' : (as.filterMap key).Nodup := by simpa [List.filterMap_cons, hka] using hnd
+      have hxa : x ∈ as := by
+        rcases List.mem_cons.mp hx with rfl | h
+        · rw [hka] at hxi; cases hxi
+        · exact h
+      have hya : y ∈ as := by
+        rcases List.mem_cons.mp hy with rfl | h
+        · rw [hka] at hyi; cases hyi
+        · exact h
+      exact ih hnd' x hxa y hya i hxi hyi
+    | some k =>
+      have hnd' : k ∉ as.filterMap key ∧ (as.filterMap key).Nodup := by
+        simpa [List.filterMap_cons, hka] using hnd
+      rcases List.mem_cons.mp hx with rfl | hxa
+      · rcases List.mem_cons.mp hy with rfl | hya
+        · rfl
+        · exfalso
+          rw [hka] at hxi; cases hxi
+          exact hnd'.1 (List.mem_filterMap.mpr ⟨y, hya, hyi⟩)
+      · rcases List.mem_cons.mp hy with rfl | hya
+        · exfalso
+          rw [hka] at hyi; cases hyi
+          exact hnd'.1 (List.mem_filterMap.mpr ⟨x, hxa, hxi⟩)
+        · exact ih hnd'.2 x hxa y hya i hxi hyi
+
+/-- **every entry of the emitted location table is the one its slot number resolves to**: the lookup the MRGN
+encoder performs for slot `i` (later entries win) returns exactly the entry that carries `i` — in particular a
+location the save placed on a new slot is what that slot holds, and nothing else claims the slot -/
+theorem c11_emitted_slot_holds_its_location {cfg : RichCfg} {secs : List RSection} {order : Option (List Nat)}
+    {locs : List RLoc} {ids : List (Nat × Nat)} (h : rebuildMrgn cfg secs order = .ok (locs, ids))
+    (table : List RLoc) (ht : secs.filter (isSectionNamed nMRGN) = [.mrgn table])
+    (hnd : (table.filterMap (·.idx)).Nodup) :
+    ∀ l ∈ locs, ∀ i, l.idx = some i → locs.reverse.find? (fun t => t.idx == some i) = some l := by
+  have hN := c11_emitted_location_slots_distinct h table ht hnd
+  intro l hl i hi
+  cases hf : locs.reverse.find? (fun t => t.idx == some i) with
+  | none =>
+    have := List.find?_eq_none.mp hf l (List.mem_reverse.mpr hl)
+    simp [hi] at this
+  | some y =>
+    have hy : y ∈ locs := List.mem_reverse.mp (List.mem_of_find?_eq_some hf)
+    have hyi : y.idx = some i := by simpa using List.find?_some hf
+    rw [eq_of_key_nodup (·.idx) locs hN y hy l hl i hyi hi]
+
 end Richchk.Props.C11
